@@ -32,7 +32,7 @@ impl<'a> SigChecker for AllLocks<'a> {
 /// is available?  None = unknown.
 fn satisfiable_at_all(node: &Node, ctx: Ctx) -> Option<bool> {
     let unit = oracle::unit_of(node, ctx).ok()?;
-    let mut world = World { keys: BTreeSet::new(), preimages: keys::u().preimages.iter().copied().collect(), lock_time: 0, sequence: 0 };
+    let mut world = World { keys: BTreeSet::new(), preimages: keys::u().preimages.iter().copied().collect(), lock_time: 0, sequence: 0, tx_version: 2 };
     let mut ecdsa = Vec::new();
     let mut leafk = Vec::new();
     for k in node.keys() {
